@@ -487,7 +487,7 @@ func (c *gcase) run(rng *common.Rng) {
 
 // ---------------------------------------------------------------------------------- generation
 
-var instNamePool = []string{"a", "aa", "b", "n_1", "x1", "fi", "n", "node_0_1", "q", "ab"}
+var instNamePool = []string{"a", "aa", "b", "n_1", "x1", "fi", "n", "node_0_1", "q", "ab", "c", "d2", "n_2", "node_1_0", "zz", "k", "m9", "ba"}
 
 func genFragment(r *common.Rng, name string, w int) *frag {
 	f := &frag{name: name}
@@ -569,6 +569,11 @@ func genCase(r *common.Rng, id string, thorough bool) *gcase {
 		frs[i] = genFragment(r, fmt.Sprintf("f%d", i), c.w)
 	}
 	n := 2 + r.Intn(5)
+	if r.Chance(1, 8) {
+		// a long graph: collapsed onto one processor it needs more than ten hand-over temporaries
+		// (t1 next to t10, t11 …)
+		n = 12 + r.Intn(5)
+	}
 	names := append([]string{}, instNamePool...)
 	for i := len(names) - 1; i > 0; i-- {
 		j := r.Intn(i + 1)
@@ -745,8 +750,10 @@ func (c *gcase) genParts(r *common.Rng, thorough bool) {
 		sep[i] = []int{i}
 		all = append(all, i)
 	}
-	c.parts = append(c.parts, c.mkPart(r, "sep", sep, false, false))
-	c.parts = append(c.parts, c.mkPart(r, "sepx", sep, false, true))
+	if n <= 9 { // (long graphs are there for the collapsed processors: no one-processor-per-instance partitions)
+		c.parts = append(c.parts, c.mkPart(r, "sep", sep, false, false))
+		c.parts = append(c.parts, c.mkPart(r, "sepx", sep, false, true))
+	}
 	c.parts = append(c.parts, c.mkPart(r, "one", [][]int{all}, false, false))
 	c.parts = append(c.parts, c.mkPart(r, "onex", [][]int{all}, true, false))
 	if n <= 4 {
@@ -763,6 +770,9 @@ func (c *gcase) genParts(r *common.Rng, thorough bool) {
 		}
 		for k := 0; k < cnt; k++ {
 			m := 2 + r.Intn(n-2)
+			if n > 9 {
+				m = 2 + r.Intn(3)
+			}
 			bl := make([][]int, m)
 			for i := 0; i < n; i++ {
 				b := r.Intn(m)
